@@ -340,6 +340,8 @@ pub enum F {
     LCorrupt,
     LEdit,
     LSigDup,
+    SharedSub,
+    OddFileName,
     Misattributed,
     CallerJsonAlias,
     CallerEmpty,
@@ -383,6 +385,8 @@ pub fn fname(f: F) -> &'static str {
         F::LCorrupt => "L-CORRUPT",
         F::LEdit => "L-EDIT",
         F::LSigDup => "L-SIGDUP",
+        F::SharedSub => "SHARED-SUBLAYOUT",
+        F::OddFileName => "ODD-FILENAME",
         F::Misattributed => "MISATTRIBUTED",
         F::CallerJsonAlias => "CALLER-JSON-ALIAS",
         F::CallerEmpty => "CALLER-EMPTY",
@@ -594,6 +598,81 @@ pub fn apply_fault(t: &mut SupplyTrace, plan: &Plan, f: F, r: &mut Rng, prefer_s
             t.root.doc.ops.push(DocOp::SigDup(keep));
             if r.chance(1, 2) {
                 t.root.doc.ops.push(DocOp::SigShuffle(r.next()));
+            }
+        }
+        F::OddFileName => {
+            // a stray copy of a stored document under a name that still matches <step>.????????.link
+            // but whose eight wildcard characters are not eight bytes
+            let paths = stored_paths(&t.root, &t.keys);
+            if paths.is_empty() {
+                return false;
+            }
+            let path = r.pick(&paths).clone();
+            let base = path.rsplit('/').next().unwrap_or(&path).to_string();
+            let step = match base.split('.').next() {
+                Some(s) if base.ends_with(".link") => s.to_string(),
+                _ => return false,
+            };
+            let odd = [
+                "\u{e9}\u{e9}\u{e9}\u{e9}\u{e9}\u{e9}\u{e9}a",
+                "a\u{e9}\u{e9}\u{e9}\u{e9}\u{e9}\u{e9}\u{e9}",
+                "\u{e9}\u{e9}\u{e9}\u{e9}\u{e9}\u{e9}\u{e9}\u{e9}",
+                "\u{1F600}234567a",
+                "1234567\u{20ac}",
+                "abc.defg",
+                "........",
+                "ABCDEF01",
+                " 2345678",
+            ];
+            let name = format!("{}.{}.link", step, r.pick(&odd));
+            t.file_faults.push(FileFault { path, kind: FileFaultKind::DupAs(name) });
+        }
+        F::SharedSub => {
+            // two functionaries of one step delegate with the same sub-layout content; only one of
+            // them has the inner evidence in his own sub-directory
+            let keyspecs = t.keys.clone();
+            let (lv, _) = pick_level(&mut t.root, r, false);
+            let mut done = false;
+            for si in 0..lv.layout.steps.len() {
+                let sname = lv.layout.steps[si].name.clone();
+                let fs = step_files(lv, &sname);
+                let sub = fs.iter().copied().find(|i| matches!(lv.files[*i].body, Body::Layout(_)));
+                let other = fs.iter().copied().find(|i| Some(*i) != sub);
+                if let (Some(a), Some(b)) = (sub, other) {
+                    let kb = match file_signers(&mut lv.files[b]).signers.first() {
+                        Some(k) => *k,
+                        None => continue,
+                    };
+                    let mut clone = match &lv.files[a].body {
+                        Body::Layout(inner) => inner.clone(),
+                        _ => continue,
+                    };
+                    clone.doc.signers = vec![kb];
+                    clone.doc.ops.clear();
+                    clone.subdir = format!("{}.{}", sname, keys::key(keyspecs[kb]).prefix());
+                    // the second delegation's own sub-directory stays empty / incomplete
+                    match r.below(3) {
+                        0 => clone.files.clear(),
+                        1 => {
+                            if !clone.files.is_empty() {
+                                let i = r.idx(clone.files.len());
+                                clone.files.remove(i);
+                            }
+                        }
+                        _ => {
+                            for f in clone.files.iter_mut() {
+                                f.doc.ops.push(DocOp::SigFlip { at: 0, bit: 7 });
+                            }
+                        }
+                    }
+                    lv.files[b].body = Body::Layout(clone);
+                    lv.layout.steps[si].threshold = fs.len() as u32;
+                    done = true;
+                    break;
+                }
+            }
+            if !done {
+                return false;
             }
         }
         F::CallerJsonAlias => {
